@@ -305,8 +305,8 @@ v(["C12", "C20"], "keys-as-int64", DM, "                idxs = sorted(int(key) f
 v("C12", "twin-keys-via-map", DM, "                idxs = sorted(int(key) for key in f.keys())", "                idxs = sorted(map(int, f.keys()))", expect="silent")
 v("C11", "open-file-by-name-only", LIB, "	if (hdf5_data_object->hdf5_file == 0 || hdf5_data_object->sub_directory == NULL", "	if (hdf5_data_object->sub_directory == NULL", rules=["C11.R7"])
 v("C06", "session-second-by-float", LIB, "	hdf5_data_object->init_utc_timestamp = 0;\n", "	hdf5_data_object->init_utc_timestamp = (uint64_t)(global_start_sample/hdf5_data_object->sample_rate);\n", rules=["C06.R8"])
-v("C06", "regenerate-one-subdir", RF, "    for this_subdir in subdirs[mid:] + subdirs[:mid]:\n        rf_files = glob.glob(os.path.join(this_subdir, rf_file_glob))\n        if len(rf_files) > 0:\n            break\n    else:\n",
-  "    this_subdir = subdirs[mid]\n    rf_files = glob.glob(os.path.join(this_subdir, rf_file_glob))\n    if len(rf_files) == 0:\n", rules=["C06.R4"])
+v("C06", "regenerate-one-subdir", RF, "    for this_subdir in subdirs[mid:] + subdirs[:mid]:\n        rf_files = glob.glob(os.path.join(glob.escape(this_subdir), rf_file_glob))\n        if len(rf_files) > 0:\n            break\n    else:\n",
+  "    this_subdir = subdirs[mid]\n    rf_files = glob.glob(os.path.join(glob.escape(this_subdir), rf_file_glob))\n    if len(rf_files) == 0:\n", rules=["C06.R4"])
 v("C16", "growth-without-expiry", RB, "                # a file that grew can push the total size over the limit\n                self._expire(rec.group)\n", "", rules=["C16.R5"])
 v("C10", "index-write-failure-not-sticky", LIB, "			/* the data is in the file but not described by its index: the file must not be published */\n			hdf5_data_object->has_failure = 1;\n", "", rules=["C10.R2"])
 v("C09", "probe-and-read-interleaved", RF, "            present = []\n            for fp in reversed(filepaths):\n                fullfile = os.path.join(self.top_level_dir, self.channel_name, fp)\n                if os.access(fullfile, os.R_OK):\n                    present.append(fullfile)\n            for fullfile in reversed(present):\n",
